@@ -593,7 +593,11 @@ def builtin_optional_leg(ck, tier):
         if not p['server'] or not p.get('optional_host_keys'):
             continue
         opts = [t for t in p['optional_host_keys'] if t not in p['host_keys']]
-        for k, opt in enumerate(opts if tier == 'thorough' else opts[:2]):
+        if tier != 'thorough':
+            # one type the tool cannot probe (a security-key type: advertised, never measured) and one it can
+            sk = [t for t in opts if t.startswith('sk-')][:1]
+            opts = sk + [t for t in opts if not t.startswith('sk-')][:2 - len(sk)]
+        for k, opt in enumerate(opts):
             key = list(p['host_keys'])
             key.insert(k % (len(key) + 1), opt)
             hks = {}
